@@ -37,7 +37,9 @@ ASSUMPTIONS = [
     "'entry non-zero in either direction' and connected_components labels components in order of their first vertex "
     "(contracts of the model; both compared exactly with the model on every case)",
     "adjacency entries are finite and non-negative, non-zero ones larger than 1e-8 in magnitude; a sparse input stores no "
-    "explicit zeros (scipy counts a stored 0 as an edge, a dense NaN/inf/|x|<=1e-8 as no edge) - such inputs are outside the model",
+    "explicit zeros (scipy counts a stored 0 as an edge, a dense NaN/inf/|x|<=1e-8 as no edge) - such inputs are outside the model. "
+    "This includes BSR matrices with blocks larger than 1x1 that contain zeros (scipy's automatic block size for dense-ish "
+    "matrices): the generator builds BSR inputs with 1x1 blocks",
     "`estimate` (find_lb/find_ub) is a parameter of the dispatch model; its soundness is property C05. The harness "
     "records its calls inside the real run and replays them into the model",
     "np.unique/np.argmax/boolean-mask indexing/astype behave as modelled (first maximum, increasing labels); compared on "
@@ -321,7 +323,10 @@ def pack(E, container):
     if container == "dok":
         return sps.dok_matrix(a)
     if container == "bsr":
-        return sps.bsr_matrix(a)
+        # 1x1 blocks: scipy's automatic block size (2x2 or larger when the blocks are > 70% full) stores the zeros INSIDE
+        # a block explicitly, `tocsr()` keeps them and csgraph counts every stored entry as an edge - such an object is
+        # outside the model's input assumption (see ASSUMPTIONS and stream_limits, which shows the effect on the real code)
+        return sps.bsr_matrix(a, blocksize=(1, 1))
     if container == "dia":
         return sps.dia_matrix(a)
     if container == "csr_array":
@@ -689,12 +694,19 @@ def stream_limits(ctx):
     tiny_csr = sps.csr_matrix(tiny_dense)
     stored0 = sps.csr_matrix((np.array([0.0]), (np.array([0]), np.array([1]))), shape=(n, n))
     above = np.array([[0, 2e-8], [0, 0]])
+    # BSR with scipy's automatic 2x2 blocks: the path 1-2-0-3 (edges 0-2, 0-3, 1-2); the zero entries (1,3)/(3,1) lie
+    # inside stored blocks, so the code sees the extra edge 1-3 and d(1,3) = 1 instead of 3
+    P = np.array([[0, 0, 1, 1], [0, 0, 1, 0], [1, 1, 0, 0], [1, 0, 0, 0]])
+    bsr_auto = sps.bsr_matrix(P)
     seen = {"dense 1e-9": run_dist(tiny_dense), "csr 1e-9": run_dist(tiny_csr), "csr stored 0": run_dist(stored0),
-            "dense 2e-8": run_dist(above)}
+            "dense 2e-8": run_dist(above), "bsr auto blocks %s" % (bsr_auto.blocksize,): run_dist(bsr_auto),
+            "same entries dense": run_dist(P)}
     edge, noedge = [[0, 1], [1, 0]], [[0]]
     as_documented = (seen["dense 1e-9"][:2] == ("ok", noedge) and seen["dense 1e-9"][3] is True
                      and seen["csr 1e-9"][:2] == ("ok", edge) and seen["csr stored 0"][:2] == ("ok", edge)
                      and seen["dense 2e-8"][:2] == ("ok", edge))
+    bsr_differs = bsr_auto.blocksize != (1, 1) and seen["bsr auto blocks %s" % (bsr_auto.blocksize,)] != seen["same entries dense"]
+    ctx.count("documented_limit:bsr_block_zeros_%s" % ("become_edges" if bsr_differs else "are_ignored"))
     ctx.case({"op": "documented_limit", "entries": tiny_dense.tolist()}, nontrivial=False)
     ctx.test("documented_limit_dense_tolerance_and_stored_zero_as_described", as_documented)
     ctx.count("documented_limit:%s" % ("as_described" if as_documented else "scipy_behaviour_changed"))
@@ -1111,7 +1123,9 @@ MANIFEST = {
             "NumPy's dtype promotion, the pairs of 128/129-vertex graphs through the public entry point (no exception, lb <= ub, lb = 0 "
             "for isomorphic pairs). DOCUMENTED LIMIT (one [T] case shows it on the real code): scipy's dense reader treats |x| <= 1e-8, "
             "NaN and inf as 'no edge', while a sparse matrix counts every stored entry - even an explicit 0 - as an edge, so a dense "
-            "and a sparse container of such numbers are different graphs to the code; the model's input is 'non-zero = edge' and these "
-            "inputs are outside it (ASSUMPTIONS).",
+            "and a sparse container of such numbers are different graphs to the code; in particular a BSR matrix with automatic 2x2 "
+            "blocks turns the zeros inside a stored block into edges (shown for the path 1-2-0-3: d(1,3) = 1 instead of 3). The "
+            "model's input is 'non-zero = edge' and these inputs are outside it (ASSUMPTIONS); whether the BSR behaviour should be "
+            "repaired in the code (eliminate_zeros after tocsr) is reported to the maintainers of known_findings.txt.",
     "technique": "Lean 4 theorems over a hand-written model + differential correspondence with the real code",
 }
